@@ -285,14 +285,18 @@ impl MutationQuery {
                         }
                         FieldType::Json => {
                             let value = match &field.field_value {
+                                //a nullable Json field can be set to null: the value is then not a string
                                 MutationFieldValue::Variable(v) => {
                                     let value = parameters.params.get(v).unwrap();
-
-                                    serde_json::from_str(value.as_string().unwrap())?
+                                    match value.as_string() {
+                                        Some(json) => serde_json::from_str(json)?,
+                                        None => value.as_serde_json_value()?,
+                                    }
                                 }
-                                MutationFieldValue::Value(v) => {
-                                    serde_json::from_str(v.as_string().unwrap())?
-                                }
+                                MutationFieldValue::Value(v) => match v.as_string() {
+                                    Some(json) => serde_json::from_str(json)?,
+                                    None => v.as_serde_json_value()?,
+                                },
                                 _ => unreachable!(),
                             };
                             obj.insert(String::from(&field.short_name), value);
